@@ -32,6 +32,7 @@ func (*BuyAndHoldStrategy) Compute(snapshots <-chan *asset.Snapshot) <-chan Acti
 	closings := asset.SnapshotsAsClosings(snapshots)
 	actions := make(chan Action, cap(snapshots))
 
+	helper.VerifStage("BuyHold", 0, []any{closings}, []any{actions})
 	go func() {
 		defer close(actions)
 
